@@ -416,4 +416,166 @@ theorem processPublish_spec {s : Server} {conn i : Nat} (L : Live s conn i) (qos
           rw [hT] at this ⊢
           exact this
 
+/-- the answer to a PUBLISH packet, `PublishValidate` included (a validation error closes the connection) -/
+def pubVerdict (s : Server) (i qos id : Nat) (topic : Str) (alias : Option Nat) : PubAns :=
+  match publishValidate s qos id topic alias with
+  | some _ => .close
+  | none => pubAnswer s i qos id topic alias
+
+theorem handler_publish_spec {s : Server} {conn i : Nat} (L : Live s conn i) (qos : Nat) (dup retain : Bool) (id : Nat)
+    (topic payload : Str) (me : Nat) (alias : Option Nat) :
+    PubSpec conn (getObj s i).ver id (pubVerdict s i qos id topic alias)
+      (handler s i (.publish qos dup retain id topic payload me alias)) := by
+  unfold pubVerdict
+  show PubSpec conn _ id _ (match publishValidate s qos id topic alias with
+    | some code => (s, [], some code)
+    | none => processPublish s i qos dup retain id topic payload me alias)
+  cases publishValidate s qos id topic alias with
+  | some code => exact ⟨code, rfl⟩
+  | none => exact processPublish_spec L qos dup retain id topic payload me alias
+
+/-- **the op, exit by exit**: verdict `close` — `closed conn` is emitted; verdict `ack t rc` — the FIRST output of the op
+    is that acknowledgement, with the request's identifier, on the same connection -/
+theorem step_publish_table {s : Server} {conn i : Nat} (L : Live s conn i) (qos : Nat) (dup retain : Bool) (id : Nat)
+    (topic payload : Str) (me : Nat) (alias : Option Nat) :
+    (pubVerdict s i qos id topic alias = .close →
+      Out.closed conn ∈ (step s (.recv conn (.publish qos dup retain id topic payload me alias))).2) ∧
+    (∀ t rc, pubVerdict s i qos id topic alias = .ack t rc →
+      ∃ rest, (step s (.recv conn (.publish qos dup retain id topic payload me alias))).2 =
+        .wrote conn (.ack (getObj s i).ver t id rc) :: rest) := by
+  have h := handler_publish_spec L qos dup retain id topic payload me alias
+  refine ⟨fun hv => ?_, fun t rc hv => ?_⟩
+  · rw [hv] at h
+    obtain ⟨code, hc⟩ := h
+    exact step_error_closes L _ code hc
+  · rw [hv] at h
+    obtain ⟨_, rest, hr⟩ := h
+    obtain ⟨rest2, h2⟩ := step_prefix L (.publish qos dup retain id topic payload me alias)
+    exact ⟨rest ++ rest2, by rw [h2, hr]; rfl⟩
+
+/-- QoS 1, outside the three exceptions (QoS clamp F07c, PUBREC record under the identifier F07d, rejecting hook):
+    the verdict is `close` or a PUBACK -/
+theorem pubVerdict_qos1 (s : Server) (i id : Nat) (topic : Str) (alias : Option Nat)
+    (hclamp : 1 ≤ s.caps.maximumQos)
+    (hrec : ((flGet (getObj s i) id).map (·.type)) ≠ some 5)
+    (hhook : assocGet s.pubHook (pubTopic s i topic alias) ≠ some "reject") :
+    pubVerdict s i 1 id topic alias = .close ∨ ∃ rc, pubVerdict s i 1 id topic alias = .ack 4 rc := by
+  have hr : (((flGet (getObj s i) id).map (·.type)) == some 5) = false := by simpa using hrec
+  have hh : (assocGet s.pubHook (pubTopic s i topic alias) == some "reject") = false := by simpa using hhook
+  have hc : clampQos s 1 = 1 := by
+    unfold clampQos
+    rw [if_neg (by omega)]
+  have href : ∀ code, refuseAns (getObj s i).ver 1 code = .close ∨ ∃ rc, refuseAns (getObj s i).ver 1 code = .ack 4 rc := by
+    intro code
+    unfold refuseAns
+    by_cases hv : ((getObj s i).ver != 5) = true
+    · left; simp [hv]
+    · right; exact ⟨code, by simp [hv]⟩
+  unfold pubVerdict
+  cases publishValidate s 1 id topic alias with
+  | some code => exact Or.inl rfl
+  | none =>
+    show pubAnswer s i 1 id topic alias = .close ∨ ∃ rc, pubAnswer s i 1 id topic alias = .ack 4 rc
+    unfold pubAnswer
+    by_cases h1 : (!isValidFilter topic true) = true
+    · rw [if_pos h1]; exact href _
+    · rw [if_neg h1]
+      by_cases h2 : ((getObj s i).recvQuota == 0) = true
+      · rw [if_pos h2]; exact Or.inl rfl
+      · rw [if_neg h2]
+        by_cases h3 : (!aclOk s (getObj s i).id topic true) = true
+        · rw [if_pos h3]; exact href _
+        · rw [if_neg h3, hr]
+          by_cases h5 : (pubTopic s i topic alias).isEmpty = true
+          · simp [h5]
+          · right
+            rw [hc]
+            unfold pubTail
+            rw [hh]
+            simp only [Bool.false_eq_true, if_false]
+            by_cases h6 : (assocGet s.pubHook (pubTopic s i topic alias) == some "err" && (getObj s i).ver == 5 &&
+                decide (1 > 0)) = true
+            · exact ⟨0x87, by rw [if_neg h5, if_pos h6]⟩
+            · exact ⟨1, by rw [if_neg h5, if_neg h6]; rfl⟩
+
+/-- QoS 2, outside the exceptions (QoS clamp F07c, rejecting hook, hook error code for an MQTT 5 client — answered with
+    PUBACK): the verdict is `close` or a PUBREC -/
+theorem pubVerdict_qos2 (s : Server) (i id : Nat) (topic : Str) (alias : Option Nat)
+    (hclamp : 2 ≤ s.caps.maximumQos)
+    (hhook : assocGet s.pubHook (pubTopic s i topic alias) ≠ some "reject")
+    (herr : ¬ (assocGet s.pubHook (pubTopic s i topic alias) = some "err" ∧ (getObj s i).ver = 5)) :
+    pubVerdict s i 2 id topic alias = .close ∨ ∃ rc, pubVerdict s i 2 id topic alias = .ack 5 rc := by
+  have hh : (assocGet s.pubHook (pubTopic s i topic alias) == some "reject") = false := by simpa using hhook
+  have he : (assocGet s.pubHook (pubTopic s i topic alias) == some "err" && (getObj s i).ver == 5 &&
+      decide (2 > 0)) = false := by
+    cases h : (assocGet s.pubHook (pubTopic s i topic alias) == some "err" && (getObj s i).ver == 5 && decide (2 > 0))
+    · rfl
+    · exfalso; apply herr; simpa using h
+  have hc : clampQos s 2 = 2 := by
+    unfold clampQos
+    rw [if_neg (by omega)]
+  have href : ∀ code, refuseAns (getObj s i).ver 2 code = .close ∨ ∃ rc, refuseAns (getObj s i).ver 2 code = .ack 5 rc := by
+    intro code
+    unfold refuseAns
+    by_cases hv : ((getObj s i).ver != 5) = true
+    · left; simp [hv]
+    · right; exact ⟨code, by simp [hv]⟩
+  unfold pubVerdict
+  cases publishValidate s 2 id topic alias with
+  | some code => exact Or.inl rfl
+  | none =>
+    show pubAnswer s i 2 id topic alias = .close ∨ ∃ rc, pubAnswer s i 2 id topic alias = .ack 5 rc
+    unfold pubAnswer
+    by_cases h1 : (!isValidFilter topic true) = true
+    · rw [if_pos h1]; exact href _
+    · rw [if_neg h1]
+      by_cases h2 : ((getObj s i).recvQuota == 0) = true
+      · rw [if_pos h2]; exact Or.inl rfl
+      · rw [if_neg h2]
+        by_cases h3 : (!aclOk s (getObj s i).id topic true) = true
+        · rw [if_pos h3]; exact href _
+        · rw [if_neg h3]
+          by_cases h4 : (((flGet (getObj s i) id).map (·.type)) == some 5) = true
+          · rw [if_pos h4]; exact Or.inr ⟨0x91, rfl⟩
+          · rw [if_neg h4]
+            by_cases h5 : (pubTopic s i topic alias).isEmpty = true
+            · simp [h5]
+            · right
+              rw [hc]
+              unfold pubTail
+              rw [hh, he]
+              exact ⟨0, by simp [h5]⟩
+
+/-- QoS 0 (no PUBREC record under the identifier — `PublishValidate` forces identifier 0): never an acknowledgement -/
+theorem pubVerdict_qos0 (s : Server) (i id : Nat) (topic : Str) (alias : Option Nat)
+    (hrec : ((flGet (getObj s i) id).map (·.type)) ≠ some 5) :
+    pubVerdict s i 0 id topic alias = .close ∨ pubVerdict s i 0 id topic alias = .silent := by
+  have hr : (((flGet (getObj s i) id).map (·.type)) == some 5) = false := by simpa using hrec
+  have hc : clampQos s 0 = 0 := by
+    unfold clampQos
+    split
+    · omega
+    · rfl
+  unfold pubVerdict
+  cases publishValidate s 0 id topic alias with
+  | some code => exact Or.inl rfl
+  | none =>
+    show pubAnswer s i 0 id topic alias = .close ∨ pubAnswer s i 0 id topic alias = .silent
+    unfold pubAnswer
+    by_cases h1 : (!isValidFilter topic true) = true
+    · rw [if_pos h1]; exact Or.inr rfl
+    · rw [if_neg h1]
+      by_cases h2 : ((getObj s i).recvQuota == 0) = true
+      · rw [if_pos h2]; exact Or.inl rfl
+      · rw [if_neg h2]
+        by_cases h3 : (!aclOk s (getObj s i).id topic true) = true
+        · rw [if_pos h3]; exact Or.inr rfl
+        · rw [if_neg h3, hr]
+          by_cases h5 : (pubTopic s i topic alias).isEmpty = true
+          · simp [h5]
+          · right
+            rw [hc]
+            unfold pubTail
+            simp [h5]
+
 end Mochi.Broker.R07
